@@ -137,3 +137,6 @@ META = dict(
     assumptions=["pattern indices below 10 return False by construction and are not enumerated"],
     explanation="f(c,i) == f(c[:i+1]) == f(c,i-N) decided for all candle values, all missing-reading patterns, all indices and lengths",
 )
+
+# families added after the seeding rounds (kept next to the original bound so that MANIFEST / evidence stay current)
+META["bounds"] = dict(META["bounds"], quick=META["bounds"]["quick"] + "; added after the seeding rounds: " + 'wrapper.calculate_index(i) and (i-N) for 7 functions')
